@@ -63,6 +63,16 @@ MC_DIST = {"module": "MC_Distributor", "quick": "MC_Distributor_quick.cfg", "tho
 MC_DIST_SCHED = {"module": "MC_Distributor", "quick": "MC_Distributor_sched.cfg", "thorough": "MC_Distributor_sched.cfg", "workers": 4,
                  "emits": "MC_Distributor_sched"}
 
+INC_RANDOM = {"suite": "incentive", "trace": "Trace_Incentive", "cfg": "Trace_Incentive.cfg",
+              "quick": {"runs": 120, "ops": 70}, "thorough": {"runs": 3000, "ops": 120}, "procs": 6}
+INC_SCHED = {"suite": "incentive", "trace": "Trace_Incentive", "cfg": "Trace_Incentive.cfg", "sched_from": "MC_Incentive_sched",
+             "extra": {"mode": "sched"}, "quick": {"runs": 600}, "thorough": {"runs": 12000}, "procs": 8}
+MC_INC = [{"module": "MC_Incentive", "quick": "MC_Incentive_quick.cfg", "thorough": "MC_Incentive.cfg", "workers": 6, "timeout": {"quick": 600, "thorough": 3000}},
+          {"module": "MC_Incentive", "quick": "MC_Incentive_flows.cfg", "thorough": "MC_Incentive_flows.cfg", "workers": 4},
+          {"module": "MC_Incentive", "quick": "MC_Incentive_sched.cfg", "thorough": "MC_Incentive_sched.cfg", "workers": 4, "emits": "MC_Incentive_sched"}]
+MATH_WEIGHT = {"suite": "math", "trace": "Trace_Math", "cfg": "Trace_Math.cfg", "extra": {"kind": "weight"},
+               "quick": {"runs": 10, "ops": 2000}, "thorough": {"runs": 200, "ops": 2000}, "procs": 4}
+
 PROPS = {
     "C01": {"mc": [MC_POOL], "suites": [POOL_SUITE]},
     "C02": {"mc": [MC_CPMATH], "suites": [MATH_CP, POOL_SUITE]},
@@ -90,6 +100,9 @@ PROPS = {
             "suites": [{"suite": "pipeline", "trace": "Trace_Pipeline", "cfg": "Trace_Pipeline.cfg", "sched_from": "MC_Pipeline",
                         "extra": {"mode": "sched"}, "quick": {"runs": 400}, "thorough": {"runs": 0}, "procs": 8}, DIST_RANDOM],
             "tags": ["C10."]},
+    "C11": {"mc": MC_INC, "suites": [INC_SCHED, INC_RANDOM]},
+    "C12": {"mc": MC_INC, "suites": [INC_SCHED, INC_RANDOM]},
+    "C13": {"mc": MC_INC, "suites": [INC_SCHED, INC_RANDOM, MATH_WEIGHT]},
     "C14": {"mc": [MC_POOL, MC_VAULT], "suites": [POOL_SUITE, VAULT_SUITE]},
     "C15": {"mc": [MC_POOL], "suites": [POOL_SUITE, MATH_SPREAD]},
 }
